@@ -125,6 +125,7 @@ def check(run):
     run.rule("T1", "_AXES2TUPLE: 24 distinct well-formed keys, values exactly {0,1,2}x{0,1}^3; _TUPLE2AXES its inverse; _NEXT_AXIS cyclic successor")
     run.rule("T2", "euler_matrix(ai,aj,ak,axes) == product of the elementary rotations the convention's name spells (24 x 9 entries)")
     run.rule("T3", "euler_from_matrix: every arctan2(y, x) satisfies y cos(t) - x sin(t) == 0 for the angle t it returns (generic branch)")
+    run.rule("T3b", "euler_from_matrix, gimbal-lock branch: the returned angles rebuild the matrix exactly, for middle angle 0 / pi (repeated axis) and +-pi/2 (Tait-Bryan)")
     run.rule("T4", "quaternion_from_euler: unit norm and the rotation matrix of the quaternion == the convention's reference (24)")
     run.rule("T5", "rotation_matrix == Rodrigues form; orthonormal, det +1 (mod |d|=1); fixes `point`")
     run.rule("T6", "transform_around == T(p) M T(-p); a rotation about p fixes p (2D and 3D)")
@@ -251,6 +252,74 @@ def check(run):
                 run.violation("T3", f_efm.where,
                               f"euler_from_matrix(axes='{axes}'): the expression returned for {label} does not satisfy y cos - x sin == 0 "
                               f"on the matrix euler_matrix builds for that convention", key=key_of("C19-T3", axes, label))
+        # ---------------------------------------------------------------- T3b gimbal-lock branch: exact round trip
+        # middle angle at its degenerate value: sin = 0, cos = g (repeated axis) or cos = 0, sin = g (Tait-Bryan), g^2 = 1
+        g = sp.Symbol("g", real=True)
+        s_j, c_j = trig.pair(aj)
+        rep = axes[1] == axes[3]
+        lock = {s_j: 0, c_j: g} if rep else {c_j: 0, s_j: g}
+        Mg = np.empty((4, 4), dtype=object)
+        Mg[...] = sp.Integer(0)
+        Mg[:3, :3] = np.array(ref.subs(lock).tolist(), dtype=object)
+        Mg[3, 3] = sp.Integer(1)
+        it2b = Interp(ix, symbols=dict(consts), trig=trig, decisions={"sy > _EPS": False, "cy > _EPS": False})
+        it2b.ext_arctan2 = lambda y, x: sp.Function("ATAN2")(sp.sympify(y), sp.sympify(x))
+        decided = True
+        try:
+            outg = it2b.call(f_efm, [Mg], {"axes": axes})
+        except Unsupported as e:
+            run.instance("T3b", f_efm.where, f"{axes}: gimbal branch not translatable ({str(e)[:60]}) - NOT decided", True, nontrivial=False)
+            run.assume(f"euler_from_matrix gimbal branch for {axes} is outside E3 ({str(e)[:80]})")
+            decided = False
+        if decided:
+            pairs = []
+            okr = isinstance(outg, tuple) and len(outg) == 3
+            for val in (outg if okr else ()):
+                val = sp.nsimplify(sp.sympify(val)) if not sp.sympify(val).free_symbols else sp.sympify(val)
+                if val == 0:
+                    pairs.append((sp.Integer(0), sp.Integer(1)))
+                    continue
+                sign = 1
+                coeff, rest = val.as_coeff_Mul()
+                if coeff == -1:
+                    sign, val = -1, rest
+                if str(getattr(val, "func", "")) != "ATAN2":
+                    okr = False
+                    break
+                y, x = val.args
+                y = sp.simplify(y.subs(g**2, 1)) if y.has(sp.sqrt) or any(isinstance(a_, sp.Pow) and a_.exp == sp.Rational(1, 2) for a_ in sp.preorder_traversal(y)) else y
+                x = sp.simplify(x.subs(g**2, 1)) if any(isinstance(a_, sp.Pow) and a_.exp == sp.Rational(1, 2) for a_ in sp.preorder_traversal(x)) else x
+                y, x = y.subs(sp.Abs(g), 1), x.subs(sp.Abs(g), 1)
+                try:
+                    r2 = reduce_mod(sp.expand(x * x + y * y), trig, extra=[(g, sp.Integer(1))])
+                except sp.PolynomialError:
+                    okr = False
+                    break
+                if sp.expand(r2 - 1) != 0:
+                    okr = False
+                    break
+                pairs.append((sign * y, x))
+            ok = False
+            if okr and len(pairs) == 3:
+                class _Fixed:
+                    def __init__(self, m_):
+                        self.m = m_
+
+                    def pair(self, sym, half=False):
+                        return self.m[sym]
+
+                A, B, C = sp.symbols("A B C")
+                back = reference(axes, _Fixed({A: pairs[0], B: pairs[1], C: pairs[2]}), (A, B, C))
+                try:
+                    ok = all(reduce_mod(sp.expand(back[r, c] - Mg[r, c]), trig, extra=[(g, sp.Integer(1))]) == 0 for r in range(3) for c in range(3))
+                except sp.PolynomialError:
+                    ok = False  # radicals that do not cancel: the angles are not those of the locked matrix
+            run.obligation("T3b", f_efm.where, f"{axes}: in the gimbal-lock branch euler_matrix(*euler_from_matrix(R)) == R for both degenerate middle angles", ok)
+            if not ok:
+                run.violation("T3b", f_efm.where,
+                              f"euler_from_matrix(axes='{axes}'): in the gimbal-lock branch the returned angles do not rebuild the matrix "
+                              f"(middle angle with {'cos' if rep else 'sin'} = +-1): a round trip through this convention changes the rotation",
+                              key=key_of("C19-T3b", axes))
         # ---------------------------------------------------------------- T4 quaternion_from_euler
         it3 = Interp(ix, symbols=dict(consts), trig=trig)
         try:
@@ -377,7 +446,59 @@ def check(run):
                               key=key_of("C19-T7", dim, translate))
             for a_ in it.assumptions:
                 run.assume(a_)
-    run.assume("real arithmetic; gimbal-lock branches (sy, cy <= _EPS), principal ranges of arctan2 and the 1e-8 identity shortcut are outside the claim")
+    # -------------------------------------------------------------------- T8 result arrays are float by construction
+    run.rule("T8", "no matrix builder stores into an array whose dtype is the caller's (a copy / view of a parameter without a float conversion): integer input would truncate")
+    import re as _re
+    from ..provenance import Prov
+    PARAM_TYPED = _re.compile(r"^(?:numpy\.(?:asanyarray|asarray|array|ascontiguousarray)\((P_\w+)\)|(P_\w+))((?:\.copy\(\)|\.T|\.view\([^)]*\)|\[[^\]]*\])*)$")
+    OUT_PARAMS = {("unit_vector", "out"): "documented output buffer supplied by the caller"}
+    n8 = 0
+    for f in ix.all_functions:
+        if f.module is not mod:
+            continue
+        stores = []
+        for st in ast.walk(f.node):
+            if isinstance(st, (ast.Assign, ast.AugAssign)):
+                for t in (st.targets if isinstance(st, ast.Assign) else [st.target]):
+                    if isinstance(t, ast.Subscript) and isinstance(t.value, ast.Name):
+                        stores.append((st, t.value.id))
+        if not stores:
+            continue
+        pv = Prov(ix, f)
+        seen = set()
+        for st, nm in stores:
+            if not pv.cfg.nodes_of.get(id(st)) or (nm, st.lineno) in seen:
+                continue
+            seen.add((nm, st.lineno))
+
+            def defs(name, at, depth=0):
+                out = set()
+                for d in pv.defs_at(at, name) or []:
+                    if d == pv.cfg.entry:
+                        out.add(f"P_{name}")
+                        continue
+                    ds = pv.cfg.stmt[d]
+                    if isinstance(ds, ast.Assign) and len(ds.targets) == 1 and isinstance(ds.targets[0], ast.Name) and pv.cfg.kind[d] == "stmt":
+                        out.add(pv.canon(ds.value, ds, strip=False))
+                    else:
+                        out.add("?")
+                return out
+
+            for txt in sorted(defs(nm, st)):
+                n8 += 1
+                m_ = PARAM_TYPED.match(txt)
+                if m_ is None:
+                    run.instance("T8", f.where, f"{f.qualname}: `{nm}` <- `{txt[:70]}` (own array)", True)
+                    continue
+                pname = (m_.group(1) or m_.group(2))[2:]
+                if (f.name, pname) in OUT_PARAMS and not m_.group(3):
+                    run.instance("T8", f.where, f"{f.qualname}: `{nm}` is the caller's `{pname}`: {OUT_PARAMS[(f.name, pname)]}", True)
+                    continue
+                run.instance("T8", f.where, f"{f.qualname}: `{nm}` <- `{txt[:70]}` keeps the dtype of parameter `{pname}`", False)
+                run.violation("T8", f.where, f"`{f.qualname}` assigns into `{nm}` = `{txt[:80]}`, whose dtype is whatever the caller passed for `{pname}`: with an integer "
+                                             f"matrix the stored values are truncated, so the result is not the real-valued transform", key=key_of("C19-T8", f.qualname, nm))
+    run.floor("array stores in transformations.py examined", n8, 25)
+    run.assume("real arithmetic; branch selection by _EPS, principal ranges of arctan2 and the 1e-8 identity shortcut are outside the claim")
     return {
         "explanation": "Polynomial-identity proof over sin/cos symbols: the 24 Euler conventions of euler_matrix equal the "
         "products of elementary rotations their names spell; euler_from_matrix reads matching entries (tangent identity); "
